@@ -184,6 +184,63 @@ def uses(u, fd, ids):
     if not body:
         return out
 
+    order = {id(x): i for i, x in enumerate(cast.walk(body[0]))}
+    exits = None        # [(order index, where)] of the return / goto statements that sit under a condition on argument-derived data
+
+    def cond_of(p, child):
+        """the controlling expression of statement p if `child` is one of its controlled parts"""
+        k = cast.kind(p)
+        inn = p.get('inner', []) or []
+        if k == 'IfStmt' and inn and child is not inn[0]:
+            return inn[0]
+        if k == 'WhileStmt' and len(inn) > 1 and child is inn[-1]:
+            return inn[0]
+        if k == 'DoStmt' and len(inn) > 1 and child is inn[0]:
+            return inn[1]
+        if k == 'ForStmt' and len(inn) >= 5 and child is inn[4]:
+            return inn[2] or None
+        if k == 'SwitchStmt' and inn and child is inn[-1]:
+            return inn[0]
+        if k == 'ConditionalOperator' and inn and child is not inn[0]:
+            return inn[0]
+        if k == 'BinaryOperator' and p.get('opcode') in ('&&', '||') and len(inn) == 2 and child is inn[1]:
+            return inn[0]
+        return None
+
+    def controlled(node, chain):
+        """where the execution of `node` depends on argument-derived data: an enclosing condition, or an earlier
+        conditional way out of the function; None if it does not"""
+        nonlocal exits
+        tl = tainted
+        child = node
+        for p in reversed(chain):
+            c = cond_of(p, child)
+            if c is not None and _mentions(c, tl):
+                return 'under the condition at %s' % cast.where(c)
+            child = p
+        if exits is None:
+            exits = []
+
+            def scan(n, ch):
+                if not isinstance(n, dict):
+                    return
+                if cast.kind(n) in ('ReturnStmt', 'GotoStmt', 'BreakStmt', 'ContinueStmt'):
+                    child_ = n
+                    for p in reversed(ch):
+                        c = cond_of(p, child_)
+                        if c is not None and _mentions(c, tl):
+                            exits.append((order.get(id(n), 0), cast.where(n)))
+                            break
+                        child_ = p
+                for c in n.get('inner', []) or []:
+                    scan(c, ch + [n])
+            scan(body[0], [])
+        me = order.get(id(node), 0)
+        for o, w in exits:
+            if o < me:
+                return 'behind the conditional way out at %s' % w
+        return None
+
     def visit(n, chain):
         nonlocal tainted
         if not isinstance(n, dict):
@@ -258,11 +315,25 @@ def uses(u, fd, ids):
             if pk in ('BinaryOperator',) and parent.get('opcode') == '=' and _is_same(parent['inner'][0], cur):
                 dep = _mentions(parent['inner'][1], tainted) or _mentions(cur, tainted - {did})
                 out.append((did, 'write', n, dep))
+                if not dep:
+                    # not data of a call - but WHETHER it is written may be: a mark, a mode, a count kept across calls
+                    ctl = controlled(parent, chain[:i])
+                    if _mentions(parent['inner'][1], {did}):
+                        out.append((did, 'update', n, 'its new value is computed from its old one' + (', ' + ctl if ctl else '')))
+                    elif ctl:
+                        out.append((did, 'mark', n, ctl))
             elif pk == 'CompoundAssignOperator' and _is_same(parent['inner'][0], cur):
                 dep = _mentions(parent['inner'][1], tainted) or _mentions(cur, tainted - {did})
                 out.append((did, 'write', n, dep))
+                if not dep:
+                    ctl = controlled(parent, chain[:i])
+                    out.append((did, 'update', n, 'it is updated in place (%s)' % parent.get('opcode') + (', ' + ctl if ctl else '')))
             elif pk == 'UnaryOperator' and parent.get('opcode') in ('++', '--'):
-                out.append((did, 'write', n, _mentions(cur, tainted - {did})))
+                dep = _mentions(cur, tainted - {did})
+                out.append((did, 'write', n, dep))
+                if not dep:
+                    ctl = controlled(parent, chain[:i])
+                    out.append((did, 'update', n, 'it is counted %s' % ('up' if parent.get('opcode') == '++' else 'down') + (', ' + ctl if ctl else '')))
             else:
                 out.append((did, 'read', n, ''))
             return
@@ -416,6 +487,7 @@ def run(ck, pid):
                     otypes[x_['id']] = cast.qual_type(x_)
         found = {}
         reads = {}
+        pending = []       # writes that carry no data of a call but whose happening depends on one: state if somebody reads it
         for fn, fd in sorted(u.functions.items()):
             if not _in_repo(fd):
                 continue
@@ -429,6 +501,8 @@ def run(ck, pid):
                     reads.setdefault(did, []).append((fn, cast.where(node)))
                 elif kind_ == 'write' and detail:
                     found.setdefault((did, fn), ('%s assigns it data derived from its arguments' % fn, cast.where(node)))
+                elif kind_ in ('update', 'mark'):
+                    pending.append((did, fn, kind_, detail, cast.where(node)))
                 elif kind_ == 'expose':
                     # handing out the address matters when something may store through it: scalar memory (octets, words)
                     # always may; a record only if this code stores through pointers to that record type somewhere
@@ -438,6 +512,17 @@ def run(ck, pid):
                             reads.setdefault(did, []).append((fn, cast.where(node)))
                             continue
                     found.setdefault((did, fn), (detail, cast.where(node)))
+        for did, fn, kind_, detail, where in pending:
+            if not reads.get(did):
+                continue            # written, never consulted: a statistic, not state the operations depend on
+            if kind_ == 'mark':
+                # a flag set once under a condition on the static object itself is lazy initialisation; `controlled` only
+                # reports conditions on argument-derived data, so what arrives here is a mark that records something
+                # about THIS call's arguments
+                what = '%s writes it %s: whether the write happens records something about this call\'s arguments' % (fn, detail)
+            else:
+                what = '%s: %s - it accumulates over calls' % (fn, detail)
+            found.setdefault((did, fn), (what, where))
         for (did, fn), (what, where) in sorted(found.items(), key=lambda kv: (objs[kv[0][0]][0], kv[0][1])):
             name, dwhere, okind = objs[did]
             rd = reads.get(did, [])
